@@ -57,6 +57,15 @@ pub const SEEDS: &[&[&str]] = &[
     &["type", "t", "=", "record", "{", "4294967294", ":", "nat", ";", "nat", "}", ";"],
     &["service", ":", "a", ";"],
     &["type", "a", "=", "b", ";", "type", "b", "=", "a", ";"],
+    // ---- parseable programs that break one rule of the type checker each (error paths of typing.rs)
+    &["type", "t", "=", "nat", ";", "type", "s", "=", "service", "{", "m", ":", "t", "}", ";"],
+    &["type", "s", "=", "service", "{", "m", ":", "s", "}", ";"],
+    &["type", "t", "=", "vec", "service", "{", "m", ":", "u", "}", ";", "type", "u", "=", "principal", ";", "service", ":", "{", "f", ":", "(", "t", ")", "->", "(", ")", "}"],
+    &["type", "a", "=", "b", ";", "type", "b", "=", "c", ";", "type", "c", "=", "b", ";", "service", ":", "{", "f", ":", "(", "a", ")", "->", "(", ")", "}"],
+    &["type", "f", "=", "func", "(", ")", "->", "(", "nat", ")", "oneway", ";", "type", "r", "=", "record", "{", "a", ":", "nat", ";", "a", ":", "text", "}", ";", "service", ":", "{", "m", ":", "f", ";", "m", ":", "f", "}"],
+    &["type", "s", "=", "service", "{", "m", ":", "(", ")", "->", "(", ")", "}", ";", "type", "t", "=", "opt", "s", ";", "service", ":", "t"],
+    &["type", "a", "=", "record", "{", "x", ":", "o", "}", ";", "type", "o", "=", "opt", "nat", ";", "type", "s", "=", "service", "{", "p", ":", "o", "}", ";", "service", ":", "s"],
+    &["type", "a", "=", "nat", ";", "type", "a", "=", "text", ";", "service", ":", "(", "a", ",", "b", ")", "->", "{", "}"],
     // ---- types
     &["opt", "vec", "record", "{", "a", ":", "variant", "{", "b", ":", "func", "(", ")", "->", "(", ")", ";", "c", "}", ";", "1", ":", "service", "{", "}", "}"],
     &["record", "{", "nat", ";", "5", ":", "text", ";", "bool", "}"],
@@ -118,6 +127,51 @@ pub const QUAR: &[&str] = &[
     "assert blob \"\\ff\" == \"\\ff\" \"\\ff\"",
     "\"\\ff",
 ];
+
+// ---- (vii) escape sequences of string literals, in every position a string literal can occupy
+pub const ESC_CONTEXTS: &[&str] = &[
+    "\"@\"", "( \"@\" )", "( \"a@b\" , 1 )", "record { \"@\" : nat }", "type t = variant { \"@\" } ; service : { \"@\" : ( t ) -> ( ) }",
+    "( record { \"@\" = 1 } )", "( variant { \"@\" } )", "( blob \"@\" )", "assert \"@\" : ( ) \"@\"", "( func \"aaaaa-aa\" . \"@\" )",
+    "import \"@\" ;",
+];
+
+/// every escape form of the lexer with boundary payloads: `\\u{D}` for hex digit strings of 1..=12
+/// digits (all zeros, one then zeros, all F, one-zeros-41, with `_` separators), two-digit byte
+/// escapes below 0x80, the single-character escapes, and malformed variants of each
+pub fn escapes() -> &'static Vec<String> {
+    static E: OnceLock<Vec<String>> = OnceLock::new();
+    E.get_or_init(|| {
+        let mut v: Vec<String> = vec![];
+        for n in 1..=12usize {
+            let zeros = "0".repeat(n);
+            let one = format!("1{}", "0".repeat(n - 1));
+            let effs = "F".repeat(n);
+            let tail = if n >= 3 { format!("1{}41", "0".repeat(n - 3)) } else { "41".to_string() };
+            let pad = format!("{}41", "0".repeat(n));
+            for d in [zeros, one.clone(), effs, tail, pad] {
+                v.push(format!("\\u{{{d}}}"));
+            }
+            // separators
+            let mut sep = String::new();
+            for (i, c) in one.chars().enumerate() {
+                if i > 0 && i % 4 == 1 {
+                    sep.push('_');
+                }
+                sep.push(c);
+            }
+            v.push(format!("\\u{{{sep}}}"));
+        }
+        for s in [
+            "\\u{D7FF}", "\\u{D800}", "\\u{DFFF}", "\\u{E000}", "\\u{10FFFF}", "\\u{110000}", "\\u{7FFFFFFF}", "\\u{80000000}", "\\u{FFFFFFFF}", "\\u{}", "\\u{_}",
+            "\\u{_1}", "\\u{1_}", "\\u{g}", "\\u{1", "\\u1}", "\\u", "\\U{41}", "\\00", "\\7f", "\\41", "\\4", "\\g0", "\\0g", "\\n", "\\r", "\\t", "\\\\", "\\\"",
+            "\\'", "\\q", "\\ ", "\\", "\\x41", "\\0", "\\u{41}\\u{100000041}",
+        ] {
+            v.push(s.to_string());
+        }
+        v.dedup();
+        v
+    })
+}
 
 // ---- (iv) nesting
 pub const NEST_DEPTH: u64 = 128;
@@ -306,6 +360,7 @@ pub enum Family {
     Nest,
     NestP,
     Quar,
+    Esc,
     Lit(String),
 }
 
@@ -345,6 +400,7 @@ impl Family {
             "ann" => Some(Family::Ann),
             "nest" => Some(Family::Nest),
             "quar" => Some(Family::Quar),
+            "esc" => Some(Family::Esc),
             "lit" => {
                 let b = hex::decode(parts.get(1)?).ok()?;
                 Some(Family::Lit(String::from_utf8(b).ok()?))
@@ -362,6 +418,7 @@ impl Family {
             Family::Ann => (ANN_SIGNS.len() * ANN_NUMS.len() * ANN_TYPES.len()) as u64,
             Family::Nest => nest_templates().len() as u64 * NEST_DEPTH,
             Family::Quar => QUAR.len() as u64,
+            Family::Esc => (ESC_CONTEXTS.len() * escapes().len()) as u64,
             Family::Lit(_) => 1,
         }
     }
@@ -396,6 +453,10 @@ impl Family {
                 (t.make)((idx % NEST_DEPTH) as usize + 1)
             }
             Family::Quar => QUAR[idx as usize].to_string(),
+            Family::Esc => {
+                let nc = ESC_CONTEXTS.len() as u64;
+                ESC_CONTEXTS[(idx % nc) as usize].replace('@', &escapes()[(idx / nc) as usize])
+            }
             Family::Lit(s) => s.clone(),
         }
     }
@@ -415,7 +476,11 @@ pub fn fingerprint() -> String {
         fnv(&mut h, c.to_string().as_bytes());
         fnv(&mut h, &[0]);
     }
-    for set in [TOKENS_FULL, TOKENS_CORE, ANN_SIGNS, ANN_NUMS, ANN_TYPES, QUAR] {
+    for e in escapes() {
+        fnv(&mut h, e.as_bytes());
+        fnv(&mut h, &[0]);
+    }
+    for set in [TOKENS_FULL, TOKENS_CORE, ANN_SIGNS, ANN_NUMS, ANN_TYPES, QUAR, ESC_CONTEXTS] {
         for t in set {
             fnv(&mut h, t.as_bytes());
             fnv(&mut h, &[0]);
